@@ -331,6 +331,9 @@ def _quick_cases(seed):
         yield from emit(_fcw((4, 3, 0), (5, 3, 1), 'msym', '3d', [], seed, ovr=o), MIXED6)
         yield from emit(_fcr((3, 2, 0), UNIT, True, 1.5, [], seed, ovr=o), MIXED6)
         yield from emit(_fcr((2, 2, 2), ANISO, False, 2.5, [], seed, ovr=o), MIXED6)
+        # single-entry kernels (explicit 1x1x1 weights, radius below one element): nothing is averaged, overrides still apply
+        yield from emit(_fcw((3, 2, 0), (1, 1, 1), 'asymn', '3d', [], seed, ovr=o), MIXED6[:2])
+        yield from emit(_fcr((3, 2, 0), UNIT, True, 0.8, [], seed, ovr=o), MIXED6[:2])
 
 
 def _thorough_cases(seed):
